@@ -72,8 +72,8 @@ Items == <<
   [field |-> <<102, 54>>, chain |-> <<<<103, 116, 101>>>>, vals |-> <<SN(3, 2)>>, single |-> TRUE],
   \* 34: f7|re: '^a.*b$'
   [field |-> <<102, 55>>, chain |-> <<<<114, 101>>>>, vals |-> <<SS(<<94, 97, 46, 42, 98, 36>>)>>, single |-> TRUE],
-  \* 35: f8|cidr: '192.168.129.0/25'
-  [field |-> <<102, 56>>, chain |-> <<<<99, 105, 100, 114>>>>, vals |-> <<SS(<<49, 57, 50, 46, 49, 54, 56, 46, 49, 50, 57, 46, 48, 47, 50, 53>>)>>, single |-> TRUE],
+  \* 35: f8|cidr: '192.168.129.0/31'
+  [field |-> <<102, 56>>, chain |-> <<<<99, 105, 100, 114>>>>, vals |-> <<SS(<<49, 57, 50, 46, 49, 54, 56, 46, 49, 50, 57, 46, 48, 47, 51, 49>>)>>, single |-> TRUE],
   \* 36: f9|all: ['a', 'b']
   [field |-> <<102, 57>>, chain |-> <<<<97, 108, 108>>>>, vals |-> <<SS(<<97>>), SS(<<98>>)>>, single |-> FALSE],
   \* 37: g1|contains: 'a*b'
@@ -95,7 +95,9 @@ Items == <<
   \* 45: g9|: 'a\\\\*b'
   [field |-> <<103, 57>>, chain |-> <<>>, vals |-> <<SS(<<97, 92, 92, 42, 98>>)>>, single |-> TRUE],
   \* 46: h1|contains: 'c:\\x'
-  [field |-> <<104, 49>>, chain |-> <<<<99, 111, 110, 116, 97, 105, 110, 115>>>>, vals |-> <<SS(<<99, 58, 92, 120>>)>>, single |-> TRUE]
+  [field |-> <<104, 49>>, chain |-> <<<<99, 111, 110, 116, 97, 105, 110, 115>>>>, vals |-> <<SS(<<99, 58, 92, 120>>)>>, single |-> TRUE],
+  \* 47: h2|cidr: '10.0.0.0/7'
+  [field |-> <<104, 50>>, chain |-> <<<<99, 105, 100, 114>>>>, vals |-> <<SS(<<49, 48, 46, 48, 46, 48, 46, 48, 47, 55>>)>>, single |-> TRUE]
 >>
 KwLists == <<
   <<SS(<<102, 111, 111>>), SS(<<98, 97, 42, 114>>)>>,
